@@ -1453,3 +1453,71 @@ class PointSaga:
                 fin += c / k * float(d @ d)
             avg += fin / k
         return avg / init, ST, "wc_point_saga", p
+
+
+class _Zero(object):
+    """the zero function (L-smooth and convex for every L)"""
+    def __init__(self, n):
+        self.n = n
+
+    def value(self, x):
+        return 0.0
+
+    def grad(self, x, rng=None):
+        return np.zeros(self.n)
+
+
+@family("accelerated_inexact_forward_backward")
+class Aifb:
+    @staticmethod
+    def params(draw, L):
+        return {"L": L, "zeta": draw(sf([0.0, 0.5, 0.87])), "n": draw(st.integers(1, 4))}
+
+    @staticmethod
+    def run(case, rng):
+        p, n, kind, slack = case["params"], case["n_dim"], case["member"], case["slack"]
+        L, zeta, N = p["L"], p["zeta"], p["n"]
+        f = _Zero(n) if kind == "extremal" else smooth(rng, n, L, 0.0, "random", slack)
+        gval, prox, g = nonsmooth_pair(rng, n, "l1")
+        if kind == "extremal":
+            g.w = np.full(n, float(rng.choice([0.1, 0.3, 1.0, 3.0])) * L)
+        gamma = 1.0 / L
+        xs = fixed_point_of(lambda x: prox(x - gamma * f.grad(x), gamma), rng.randn(n))
+        if xs is None:
+            return None
+        Fs = f.value(xs) + gval(xs)
+        x0 = start_from(rng, xs, n, (1.0, 2.0))
+        eta = (1 - zeta ** 2) * gamma
+        A = [0.0]
+        x, z = x0.copy(), x0.copy()
+        push = float(rng.choice([1.0, 1.0, 0.5]))
+        for i in range(N):
+            A.append(A[i] + (eta + math.sqrt(eta ** 2 + 4 * eta * A[i])) / 2)
+            y = x + (1 - A[i] / A[i + 1]) * (z - x)
+            gy = f.grad(y)
+            c0 = y - gamma * gy
+            pt = prox(c0, gamma)                    # exact proximal point: w = pt, v = (c0 - pt) / gamma in dg(pt)
+            v = (c0 - pt) / gamma
+            budget = (zeta * gamma) ** 2 / 2 * float((v + gy) @ (v + gy))
+
+            def gap(e):
+                # primal-dual gap of the pair (pt + e, v): |e|^2 / 2 + gamma (g(pt + e) - g(pt) - <v, e>)
+                return 0.5 * float(e @ e) + gamma * (gval(pt + e) - gval(pt) - float(v @ e))
+            u = unit(rng, n)
+            if rng.randint(2) and np.linalg.norm(v + gy) > 0:
+                u = (v + gy) / np.linalg.norm(v + gy) * rng.choice([1.0, -1.0])
+            lo, hi = 0.0, 1.0
+            if budget > 0:
+                while gap(hi * u) <= budget and hi < 1e6:
+                    lo, hi = hi, hi * 2
+                for _ in range(100):
+                    mid = 0.5 * (lo + hi)
+                    if gap(mid * u) <= budget:
+                        lo = mid
+                    else:
+                        hi = mid
+            e = push * lo * u if budget > 0 else np.zeros(n)
+            assert gap(e) <= budget * (1 + 1e-9) + 1e-300
+            x = pt + e
+            z = z - (A[i + 1] - A[i]) * (v + gy)
+        return (f.value(x) + gval(x) - Fs) / float((x0 - xs) @ (x0 - xs)), "PEPit.examples.inexact_proximal_methods", "wc_accelerated_inexact_forward_backward", p
